@@ -285,6 +285,7 @@ def c04_rf18(run):
     rf_inline.rf56(run)
     rf_inline.rf72(run)
     rf_inline.rf73(run)
+    rf_inline.rf83(run)
     rf_flow.rf71(run, units=('mir',))
     run.min_instances('RF71', 3)
     rf_fold.rf48(run)
